@@ -552,8 +552,23 @@ def trace_append(ex, st, kind, fn=None, recv=None, refs=(), reals=(), bools=()):
 
 def _split_args(pos, kw):
     refs, reals, bools = [], [], []
+    flat = []
+
+    def flatten(v):
+        if isinstance(v, V) and v.kind == 'tuple':
+            for x in v.items:
+                flatten(x)
+        else:
+            flat.append(v)
     for v in list(pos) + list(kw.values()):
+        flatten(v)
+    for v in flat:
         if not isinstance(v, V):
+            continue
+        if v.kind in ('int', 'real') and v.n is not None:
+            # optional number: presence flag + value
+            bools.append(v.n)
+            reals.append(v.t)
             continue
         if v.kind == 'ref':
             refs.append(v.t)
@@ -575,7 +590,18 @@ def extern_call(ex, recv, name, pos, kw, st, fr, cls):
     if decl is None:
         raise Unsupported(f'external call {cls}.{name} without extern declaration')
     refs, reals, bools = _split_args(pos, kw)
-    trace_append(ex, st, ex.fnid(name), None, recv.t, refs, reals, bools)
+    if decl.requires:
+        args = {'self': recv}
+        for pn, v in zip(decl.params, pos):
+            args[pn] = v
+        args.update(kw)
+        cs = st.fork()
+        cs.loc = args
+        cs.pure = True
+        for nm, text in decl.requires:
+            ex.oblige(f'call.{decl.qual}.pre.{nm}', st, ex.specs.eval_bool(ex, text, cs, fr), 'call_pre', {'clause': text})
+    clos = [v.t for v in list(pos) + list(kw.values()) if isinstance(v, V) and v.kind == 'clo']
+    trace_append(ex, st, ex.fnid(name), clos[0] if clos else None, recv.t, refs, reals, bools)
     if not decl.pure:
         rely_havoc(ex, st, fr, f'{cls}.{name}')
     res = vnone()
